@@ -116,7 +116,7 @@ pub fn profile(prop: &str) -> Profile {
             mode: Mode::FailEnum,
             min_ops: 8,
             max_ops: 22,
-            w: [26, 16, 14, 24, 4, 1, 0, 1, 1, 1, 2, 2, 0, 0, 0, 0, 0, 0],
+            w: [26, 16, 14, 24, 4, 1, 0, 1, 1, 1, 2, 2, 0, 0, 0, 3, 0, 0],
             size_w: [10, 45, 25, 15, 5],
             obs_level: 1,
             ..base
@@ -1091,6 +1091,48 @@ impl Gen {
                     let r: Vec<B32> = self.model.retrievable.iter().copied().collect();
                     if !r.is_empty() {
                         ops.push(Op::TakeRef(*self.rng.pick(&r)));
+                    }
+                }
+                "fail" if self.rng.chance(if self.p.mode == Mode::FailEnum { 9 } else { 3 }, 10) && self.p.mode != Mode::Crash => {
+                    // the next store / removal runs under a file size limit (no room to grow the
+                    // map, or for the engine to extend its file); a store is retried afterwards
+                    let mode = self.rng.below(4) as u8;
+                    match self.rng.weighted(&[45, 25, 20, 10]) {
+                        0 => {
+                            let e = if self.rng.chance(1, 2) { self.new_version() } else { self.new_event() };
+                            ops.push(Op::Fsize(mode));
+                            ops.push(Op::Store(e.clone()));
+                            self.apply_store_to_gen_model(&e);
+                            ops.push(Op::Store(e));
+                        }
+                        1 => {
+                            let e = self.deletion();
+                            ops.push(Op::Fsize(mode));
+                            ops.push(Op::Store(e.clone()));
+                            self.apply_store_to_gen_model(&e);
+                            ops.push(Op::Store(e));
+                        }
+                        2 => {
+                            // a burst of stores with the limit renewed before each: sooner or later
+                            // one of them needs room
+                            for _ in 0..self.rng.range(2, 6) {
+                                let e = self.new_event();
+                                ops.push(Op::Fsize(mode));
+                                ops.push(Op::Store(e.clone()));
+                                self.apply_store_to_gen_model(&e);
+                                ops.push(Op::Store(e));
+                            }
+                        }
+                        _ => {
+                            let known: Vec<B32> = self.model.retrievable.iter().copied().collect();
+                            if !known.is_empty() {
+                                let id = *self.rng.pick(&known);
+                                ops.push(Op::Fsize(mode));
+                                ops.push(Op::Remove(id));
+                                let _ = self.model.apply_remove(&id);
+                                ops.push(Op::Remove(id));
+                            }
+                        }
                     }
                 }
                 "fail" => {
